@@ -117,6 +117,18 @@ def direct(seed, tier, model, stats):
                 if d:
                     break
             gain = float(np.max(np.abs(H[np.isfinite(H)])))
+            if d is None:
+                # "for every real signal": also one whose samples are held as integers (array of ints, list, int16 counts)
+                j = r.randrange(N)
+                xi = np.zeros(N, dtype=np.int64)
+                xi[j] = 1
+                x16 = np.zeros(N, dtype=np.int16)
+                x16[j], x16[(j + 1) % N] = 1000, -3
+                for nm, xs in (("int64 impulse", xi), ("list of ints", [int(v) for v in xi]), ("int16 samples", x16)):
+                    d = bins_check(fn, label + f" on an {nm}", xs, H, N)
+                    tested["rc_bins"] += N
+                    if d:
+                        break
             if d is None and kind == "HP":
                 # the same call again with another DC gain, and then the first one again (results must not
                 # depend on what was computed before)
@@ -166,6 +178,8 @@ def direct(seed, tier, model, stats):
                 d = bins_check(fn, label + f" on impulse {j}", x, H.astype(complex), N)
                 if d:
                     break
+            if d is None and N <= 24:
+                d = bins_check(fn, label + " on a list of ints", [3 if j == 1 else 0 for j in range(N)], H.astype(complex), N)
             if d is None and N <= 24:
                 x = np.array([r.uniform(-1, 1) for _ in range(N)])
                 d = model_check(model, label, {"kind": "custom", "SR": bits(SR), "tf_freqs": [bits(v) for v in fr],
